@@ -426,7 +426,7 @@ ASSUMPTIONS = [
 ]
 PROBES = ["refresh_is_one_answer_of_the_spa", "update_right_behind_a_watercare_answer", "watercare_error_announced", "refresh_restores_a_value_after_an_unreported_revert", "message_with_200_or_more_records", "more_than_a_full_sequence_cycle_of_messages", "two_or_more_messages", "empty_message", "repeated_position_in_message", "duplicate_datagram_arrived",
           "refresh_over_partial", "message_during_handshake", "one_byte_change"]
-N_QUICK = 1200
+N_QUICK = 720
 
 
 def jobs(tier: str, base_seed: int):
